@@ -11,8 +11,10 @@ def run_suite(rep, pid, suite, tier, what_failed='obligation'):
                          per_function_timeout=400 if tier == 'quick' else 1500)
     failed = []
     n = 0
+    ndeg = 0
     for r in res:
         fn = r['function']
+        if r.get('degraded'): ndeg += 1
         rep.functions[fn] = r.get('sha', '?')
         if r.get('degraded'): rep.degrade(fn, r['degraded'])
         if r.get('error'): rep.error('%s: %s' % (fn, r['error'][-400:]))
@@ -28,7 +30,7 @@ def run_suite(rep, pid, suite, tier, what_failed='obligation'):
                 pass          # the invariant is demanded at every exit, exceptional ones included: a function whose modelled exits all raise is not vacuous
             else:
                 rep.error('%s: no normal exit reached (vacuous contract?)' % fn)
-    if n == 0: rep.error('zero proof obligations generated for %s' % pid)
+    if n == 0 and ndeg == 0: rep.error('zero proof obligations generated for %s' % pid)   # every function degraded: reported as such, the bounded tier decides
     return failed
 
 
